@@ -209,7 +209,8 @@ const livelockMarker = "C10 livelock guard"
 // guardACP counts access checks and panics when one request exceeds the limit.
 type guardACP struct {
 	dac.DocumentACP
-	n atomic.Int64
+	n       atomic.Int64
+	tripped atomic.Bool
 }
 
 func (g *guardACP) CheckDocAccess(
@@ -221,6 +222,9 @@ func (g *guardACP) CheckDocAccess(
 	docID string,
 ) (bool, error) {
 	if g.n.Add(1) > livelockLimit {
+		// the flag, not the panic text, is the signal: a deferred Txn.Discard of the code under test may replace the
+		// panic value on the way up ("Unclosed iterator at time of Txn.Discard")
+		g.tripped.Store(true)
 		panic(fmt.Sprintf("%s: more than %d access checks in one request (last on %s)", livelockMarker, livelockLimit, docID))
 	}
 	return g.DocumentACP.CheckDocAccess(ctx, permission, actorID, policyID, resourceName, docID)
@@ -317,8 +321,8 @@ type livelock struct {
 func (e *env) execReal(id int, q string) hx.Result {
 	e.guard.n.Store(0)
 	r := exec(e.real, id, q)
-	if strings.Contains(r.Panic, livelockMarker) {
-		panic(livelock{id: id, req: q, msg: firstLine(r.Panic)})
+	if e.guard.tripped.Load() {
+		panic(livelock{id: id, req: q, msg: fmt.Sprintf("more than %d document access checks in one request", livelockLimit)})
 	}
 	return r
 }
@@ -436,7 +440,7 @@ func run(c Case) (fail *hx.Failure, st *stats) {
 			}
 			fail = hx.Failf(sig, "%s as %s never finishes: %s", v.req, who(v.id), v.msg)
 		case string:
-			if strings.Contains(v, livelockMarker) {
+			if strings.Contains(v, livelockMarker) || e.guard.tripped.Load() {
 				fail = hx.Failf("C10/livelock/collection-api", "%s", v)
 				return
 			}
@@ -967,7 +971,20 @@ func (e *env) checkpoint(i int, op Op) *hx.Failure {
 	return nil
 }
 
-func (e *env) avoid(sig string) bool { return e.c.Avoid && rec.IsKnown(sig) }
+func (e *env) avoid(sig string) bool {
+	on := false
+	switch sig {
+	case sigLivelock:
+		on = e.c.AvoidLive
+	case sigCommits, sigLatest:
+		on = e.c.AvoidCommits
+	case sigTimeTrav:
+		on = e.c.AvoidTT
+	case sigSubActive:
+		on = e.c.AvoidSub
+	}
+	return on && rec.IsKnown(sig)
+}
 
 // hiddenMatters labels a read: does the answer change when every hidden document is made public?
 func (e *env) hiddenMatters(r int, q string, twinRes hx.Result, label string) {
